@@ -48,7 +48,18 @@ var solvers = []solverSpec{
 func renderOne(vc *FuncVC, head string, o *Obl) string {
 	var b strings.Builder
 	b.WriteString(head)
-	b.WriteString(vc.Prefix)
+	if o.NAsserts > 0 && vc.Asserts != nil && o.NAsserts-1 <= len(vc.Asserts) && os.Getenv("CEDAR_FULL_PREFIX") == "" {
+		for _, d := range vc.Decls {
+			b.WriteString(d)
+			b.WriteString("\n")
+		}
+		for _, a := range vc.Asserts[:o.NAsserts-1] {
+			b.WriteString(a)
+			b.WriteString("\n")
+		}
+	} else {
+		b.WriteString(vc.Prefix)
+	}
 	fmt.Fprintf(&b, "; obligation %s\n", o.Name)
 	for _, x := range o.Extra {
 		fmt.Fprintf(&b, "(assert %s)\n", x.S)
